@@ -245,6 +245,7 @@ func (m *PluginManager) Install(ctx context.Context, name string, constraint *se
 	if err := moveIntoPlace(stagingDir, newPluginDir); err != nil {
 		return fmt.Errorf("couldn't move plugin into the plugins directory: %w", err)
 	}
+	simhook.CrashPoint("install.after_move_into_place")
 
 	if err := registerFileExtensions(plugin.Name, plugin.FileExtensions); err != nil {
 		return fmt.Errorf("couldn't register file extensions: %w", err)
@@ -261,6 +262,7 @@ func moveIntoPlace(stagingDir, targetDir string) error {
 	if err := os.MkdirAll(filepath.Dir(targetDir), os.ModePerm); err != nil {
 		return fmt.Errorf("couldn't create plugin directory: %w", err)
 	}
+	simhook.CrashPoint("install.after_mkdir_parent")
 	if _, err := os.Stat(targetDir); os.IsNotExist(err) {
 		if err := os.Rename(stagingDir, targetDir); err != nil {
 			return fmt.Errorf("couldn't rename plugin directory: %w", err)
@@ -280,6 +282,7 @@ func moveIntoPlace(stagingDir, targetDir string) error {
 		if info.IsDir() {
 			return os.MkdirAll(filepath.Join(targetDir, relative), os.ModePerm)
 		}
+		simhook.CrashPoint("install.before_replace_file")
 		return os.Rename(path, filepath.Join(targetDir, relative))
 	})
 }
